@@ -47,11 +47,20 @@ fn decode_literal(s: &str) -> Value {
     json!({"k": "err"})
 }
 
-fn run(text: &str, k: usize) -> Value {
+type DeepVal<'a> = exmex::DeepEx<'a, exmex::Val<i32, f64>, exmex::ValOpsFactory<i32, f64>, exmex::ValMatcher>;
+
+/// route "flat": parse_val(text).partial(k);  route "deep": DeepEx::parse(text).partial(k) converted to the flat form
+/// (the rules see whole nesting levels of the deep form instead of one operator per level)
+fn run(text: &str, k: usize, route: &str) -> Value {
     let r = guarded(|| -> ExResult<Value> {
         let e = parse_val::<i32, f64>(text)?;
         let vars: Vec<Value> = e.var_names().iter().map(|v| cps(v)).collect();
-        let d = e.partial(k)?;
+        let d = if route == "deep" {
+            let text: &'static str = Box::leak(text.to_string().into_boxed_str());
+            FlatEx::from_deepex(DeepVal::parse(text)?.partial(k)?)?
+        } else {
+            e.partial(k)?
+        };
         let mut dump: Value = serde_json::from_str(&d.verif_dump()).map_err(|e| exmex::ExError::new(&format!("dump: {e}")))?;
         // literals: Debug text -> descriptor; indices -> 1-based
         for n in dump["nodes"].as_array_mut().unwrap() {
@@ -95,11 +104,14 @@ pub fn main(args: &[String]) -> i32 {
         let text = uncps(&rec["text"]);
         let nk = rec["nvars"].as_u64().unwrap_or(1) as usize;
         let mut results = vec![];
-        for k in 0..nk {
-            runs += 1;
-            let mut r = run(&text, k);
-            r["k"] = json!(k + 1);
-            results.push(r);
+        for route in ["flat", "deep"] {
+            for k in 0..nk {
+                runs += 1;
+                let mut r = run(&text, k, route);
+                r["k"] = json!(k + 1);
+                r["route"] = json!(route);
+                results.push(r);
+            }
         }
         let mut m = rec.as_object().unwrap().clone();
         m.insert("case".into(), json!(n));
